@@ -51,7 +51,7 @@ NETS = ["net1", "net1 net2", "net0", "net1 net5", "net3 net4 net5", "cluster1.ne
 
 @st.composite
 def cases(draw):
-    chain = draw(st.lists(st.sampled_from(STEPS), min_size=1, max_size=4, unique=True))
+    chain = draw(st.lists(st.sampled_from(STEPS), min_size=1, max_size=4))
     vms = draw(st.sampled_from([["vm1"], ["vm2"], ["vm1", "vm2"], ["vm1", "vm2", "vm3"], ["vm3"], ["vm2", "vm3"], None]))
     restrs = {}
     for vm in (vms or ["vm1", "vm2", "vm3"]):
